@@ -387,10 +387,34 @@ def run_cnf_orders(ctx):
         tx = ['rule r {\n  %s\n}\n' % '\n  '.join(p_) for p_ in itertools.permutations(cl)]
         tx += ['rule r {\n  blk {\n    %s\n  }\n}\n' % '\n    '.join(p_) for p_ in itertools.permutations(['a exists', '%s == 99' % w.replace('x', 'y')])]
         groups.append(('a failing clause whose key starts like a keyword (%s) at every position' % w, tx))
+    # (d) a block evaluated for several values, with a block-level variable (from a function call, a query, a literal) that differs
+    # between the values and is used behind / in front of another alternative: which value asks for the variable first depends on
+    # the order of the alternatives and lines - the verdict must not (a scope shared between the values would show here)
+    gdocs = {}
+    vals_a = [{'flag': True, 'xs': [1, 2, 3], 'name': 'AA'}, {'flag': False, 'xs': [1], 'name': 'b'}]
+    for vname, vals in (('first-flagged', vals_a), ('last-flagged', list(reversed(vals_a))), ('three', vals_a + [{'flag': False, 'xs': [1, 2], 'name': 'Cc'}])):
+        ddoc = {'items': vals, 'm': {'k%d' % i: v for i, v in enumerate(vals)}, 'Resources': {'r%d' % i: {'Type': 'T::A::B', 'Properties': v} for i, v in enumerate(vals)}}
+        for lname, (let, use) in {'function count': ('let n = count(xs[*])', '%n <= 1'), 'function to_lower': ('let n = to_lower(name)', '%n == "b"'),
+                                  'query': ('let n = xs[*]', '%n < 2'), 'query+filter': ('let n = xs[ this > 1 ]', '%n empty'),
+                                  'function join': ('let n = join(xs[*], ",")', '%n == "1"')}.items():
+            A, B, Cc = 'flag == true', use, 'name exists'
+            bodies_ = [[A + ' or ' + B], [B + ' or ' + A], [Cc, A + ' or ' + B], [A + ' or ' + B, Cc], [Cc, B + ' or ' + A], [B + ' or ' + A, Cc],
+                       [A + ' or ' + B, A + ' or ' + B], [A + ' or ' + B, B + ' or ' + A], [B + ' or ' + A, A + ' or ' + B]]
+            for sname, (head, tail, ind) in {'list block': ('items[*] {', '}', '    '), 'map block': ('m.* {', '}', '    '), 'filter block': ('items[ name exists ] {', '}', '    '),
+                                             'type block': ('T::A::B {', '}', '    '), 'resources block': ("Resources.*[ Type == 'T::A::B' ].Properties {", '}', '    '),
+                                             'when inside block': ('items[*] {\n    when name exists {', '}\n  }', '      ')}.items():
+                def mk(lines_, head=head, tail=tail, ind=ind, let=let):
+                    pre = 'Properties.' if head.startswith('T::') else ''
+                    def fix(l_):
+                        return l_ if not pre else l_.replace('flag ==', 'Properties.flag ==').replace('name exists', 'Properties.name exists')
+                    let_ = let if not pre else let.replace('(xs', '(Properties.xs').replace('(name', '(Properties.name').replace('= xs', '= Properties.xs')
+                    return 'rule r {\n  %s\n%s%s\n%s%s\n  %s\n}\n' % (head, ind, let_, ind, ('\n' + ind).join(fix(l_) for l_ in lines_), tail)
+                groups.append(('block variable (%s) used behind an alternative, %s, values %s' % (lname, sname, vname), [mk(b_) for b_ in bodies_]))
+                gdocs[len(groups) - 1] = ddoc
     pairs, meta = [], []
     for gi, (lab, tx) in enumerate(groups):
         for ti, text in enumerate(tx):
-            pairs.append((text, json.dumps(doc))); meta.append((gi, ti))
+            pairs.append((text, json.dumps(gdocs.get(gi, doc)))); meta.append((gi, ti))
     outs, raw = e2e.pair_outcomes(pairs, ctx.wd, 'c04cnf', loader='cli')
     seen, n = {}, 0
     for (gi, ti), o, r, (text, data) in zip(meta, outs, raw, pairs):
